@@ -39,7 +39,7 @@ def plan(tier, seed):
     targets = C.cat()[0]
     idx = list(range(len(targets)))
     return [{"what": "targets", "targets": p} for p in C.split_round_robin(idx, 20)] + [
-        {"what": "config", "part": i} for i in range(4)] + [{"what": "odd"}]
+        {"what": "config", "part": i} for i in range(4)] + [{"what": "odd"}, {"what": "race", "suites": ["build"]}]
 
 
 def names_for(clsid):
@@ -86,6 +86,10 @@ def frame_problems(s, clsid, m):
 
 
 def check(case) -> core.Out:
+    if isinstance(case, dict) and case.get("kind") == "race":
+        from vp.props import racing
+
+        return racing.check_race(PROP, case)
     import pyubx2
 
     route = case["route"]
@@ -217,6 +221,12 @@ def kwargs_from(nodes, bf, subset_seed=None):
 
 
 def run_shard(spec, ctx, acc):
+    if spec.get("what") == "race":
+        # steady-state concurrency (see vp/props/racing.py)
+        for suite in spec["suites"]:
+            case = {"kind": "race", "suite": suite, "seconds": 1.2 if ctx["tier"] == "quick" else 20}
+            core.handle(acc, check(case), case, set(ctx["known"]))
+        return
     import pyubx2
 
     known = set(ctx["known"])
